@@ -1821,7 +1821,45 @@ func ruleVSelect(c *engine.Context) *report.Rule {
 					}
 				}
 			}
-			if step == nil {
+			// where the forward-or-emit helper is expanded into the loop, handling of the member
+			// starts where it is looked up (object) or where the next link is tested (array)
+			stop := map[*ssa.BasicBlock]bool{}
+			if step != nil {
+				stop[step.Block()] = true
+			}
+			derivedFromParams := map[ssa.Value]bool{}
+			for _, prm := range fn.Params {
+				for v := range cfgutil.Derived(prm) {
+					derivedFromParams[v] = true
+				}
+			}
+			for b := range l.Blocks {
+				for _, ins := range b.Instrs {
+					if lk, isLk := ins.(*ssa.Lookup); isLk && lk.X != ssa.Value(V) && derivedFromParams[resolveCell(lk.X)] {
+						if _, isMap := lk.X.Type().Underlying().(*types.Map); isMap {
+							stop[b] = true
+						}
+					}
+				}
+				if ifi, isIf := b.Instrs[len(b.Instrs)-1].(*ssa.If); isIf && nextGuardBase(p, ifi.Cond) != nil {
+					stop[b] = true
+				}
+			}
+			// keep only the first stop block on every path: a stop block dominated by another is inside the handling
+			for b := range stop {
+				for b2 := range stop {
+					if b != b2 && b2.Dominates(b) {
+						delete(stop, b)
+					}
+				}
+			}
+			handles := step != nil
+			for b := range l.Blocks {
+				if ifi, isIf := b.Instrs[len(b.Instrs)-1].(*ssa.If); isIf && nextGuardBase(p, ifi.Cond) != nil {
+					handles = true
+				}
+			}
+			if len(stop) == 0 || !handles {
 				continue
 			}
 			loopsSeen++
@@ -1832,7 +1870,7 @@ func ruleVSelect(c *engine.Context) *report.Rule {
 			type fact struct{ each, marker int } // -1 unknown, 0 false, 1 true
 			var walk func(b *ssa.BasicBlock, f fact, on map[*ssa.BasicBlock]bool)
 			walk = func(b *ssa.BasicBlock, f fact, on map[*ssa.BasicBlock]bool) {
-				if b == step.Block() {
+				if stop[b] {
 					if !(f.each == 0 || (f.each == 1 && f.marker == 0)) {
 						problems = append(problems, fmt.Sprintf("a member can be handed to the next step on a path where it is not established that the list is a whole-match list or that the member's own verdict is true (per-member list known: %s, verdict is marker: %s)", tri(f.each), tri(f.marker)))
 					}
@@ -1888,13 +1926,33 @@ func ruleVSelect(c *engine.Context) *report.Rule {
 			walk(body, fact{-1, -1}, map[*ssa.BasicBlock]bool{})
 			// member index = verdict index
 			usesIdx := false
-			for _, a := range step.Call.Args {
-				if a == ind.Index {
-					usesIdx = true
+			if step != nil {
+				for _, a := range step.Call.Args {
+					if a == ind.Index {
+						usesIdx = true
+					}
+					if ld, ok := a.(*ssa.UnOp); ok {
+						if ia, ok := ld.X.(*ssa.IndexAddr); ok && ia.Index == ind.Index {
+							usesIdx = true // key list element at the same index
+						}
+					}
 				}
-				if ld, ok := a.(*ssa.UnOp); ok {
-					if ia, ok := ld.X.(*ssa.IndexAddr); ok && ia.Index == ind.Index {
-						usesIdx = true // key list element at the same index
+			}
+			// expanded form: the member itself is read at the loop's index (array element, or the
+			// object member under the key at that index of the key list)
+			for b := range l.Blocks {
+				for _, ins := range b.Instrs {
+					switch x := ins.(type) {
+					case *ssa.IndexAddr:
+						if resolveCell(x.Index) == ind.Index && x.X != ssa.Value(V) && derivedFromParams[resolveCell(x.X)] && isIfaceSliceT(x.X.Type()) {
+							usesIdx = true
+						}
+					case *ssa.Lookup:
+						if ld, ok := resolveCell(x.Index).(*ssa.UnOp); ok && derivedFromParams[resolveCell(x.X)] {
+							if ia, ok := ld.X.(*ssa.IndexAddr); ok && resolveCell(ia.Index) == ind.Index {
+								usesIdx = true
+							}
+						}
 					}
 				}
 			}
@@ -1956,4 +2014,28 @@ func (ba *boolAnalysis) delegate(v ssa.Value, facts boolFacts, op string, depth 
 		return nil
 	}
 	return analyseBoolNodeWith(ba.p, sc, nil, ba.arity, op, pre, facts, depth+1)
+}
+
+// resolveCell: a load of a local cell (a variable captured by a closure) into which exactly one
+// value is stored is that value.
+func resolveCell(v ssa.Value) ssa.Value {
+	for i := 0; i < 4; i++ {
+		al := loadOfCell(v)
+		if al == nil {
+			return v
+		}
+		var only ssa.Value
+		n := 0
+		for _, ref := range *al.Referrers() {
+			if st, ok := ref.(*ssa.Store); ok && st.Addr == ssa.Value(al) {
+				only = st.Val
+				n++
+			}
+		}
+		if n != 1 {
+			return v
+		}
+		v = only
+	}
+	return v
 }
